@@ -21,7 +21,7 @@ SPEC_OPS = None
 
 TIERS = {
     #            symtab hist len, symtab invariant len, random programs, TLC bound (bytes of code), VM step limit
-    "quick":    dict(symlen=6, syminv=10, nrandom=1200, maxtlc=2500, limit=6000, scaled_max=7000, batch=45000),
+    "quick":    dict(symlen=6, syminv=8, nrandom=1000, maxtlc=2500, limit=6000, scaled_max=7000, batch=45000),
     "thorough": dict(symlen=7, syminv=14, nrandom=14000, maxtlc=30000, limit=30000, scaled_max=10 ** 9, batch=60000),
 }
 
@@ -169,6 +169,8 @@ def prog_class(origin, obs, sizefeat):
     big = []
     if obs.get("len", 0) > 65535:
         big.append("code>65535")
+        if obs.get("njump", 0) > 0:
+            big.append("jumps")
     if obs.get("nconst", 0) > 65536:
         big.append("const>65535")
     if obs.get("globals", 0) > 65536:
@@ -385,7 +387,10 @@ def programs_part(chk, cfg, tier):
 
 def run(chk):
     tier = chk.tier if chk.tier in TIERS else "quick"
-    cfg = TIERS[tier]
+    cfg = dict(TIERS[tier])
+    for k in list(cfg):                      # development overrides, e.g. C17_NRANDOM=100
+        if os.environ.get("C17_" + k.upper()):
+            cfg[k] = int(os.environ["C17_" + k.upper()])
     common.build_harness()
     t0 = time.time()
     with cf.ThreadPoolExecutor(max_workers=2) as ex:
